@@ -246,6 +246,26 @@ def compact_nf(prog, modname, fname='compact', depth=0):
     return ('same', tm, tf)
 
 
+def statement_nf(prog, modname, fn, stmt):
+    """Normal form of `x = clean(p, D).strip()...` / `return clean(...)...` written inline in fn (None if not such a chain)."""
+    import copy
+    val = getattr(stmt, 'value', None)
+    if val is None or not fn.args.args:
+        return None
+    tmp = ast.FunctionDef(name='__inline__', args=fn.args, body=[ast.Return(value=val)], decorator_list=[], returns=None, type_comment=None, type_params=[])
+    m = prog.mods[modname]
+    saved = m.funcs.get('__inline__')
+    m.funcs['__inline__'] = tmp
+    try:
+        nf = compact_nf(prog, modname, '__inline__')
+    finally:
+        if saved is None:
+            del m.funcs['__inline__']
+        else:
+            m.funcs['__inline__'] = saved
+    return nf if nf and nf[0] in ('nf', 'prefixed') else None
+
+
 def nf_equiv(a, b):
     if a is None or b is None:
         return False
